@@ -11,7 +11,7 @@ the log carries the structure needed by the skeleton model (`ctx-begin / ctx-end
 import contextlib
 from fractions import Fraction
 
-from . import pdfstream
+from . import c16src, pdfstream
 
 # pydyf methods that append exactly one item -> operator class of Model/PdfStream
 PASS_THROUGH = {
@@ -100,7 +100,16 @@ def make_logging_class(recorder):
 
     def set_font_size(self, before, result, font, size):
         recorder.on(self, 'font', str(font), size)
+        recorder.font_events.append(('tf', recorder.handle(self), str(font), size))
     outer('set_font_size', set_font_size)
+
+    def add_font(self, before, result, pango_font):
+        # `draw_first_line`: `font, font_size = stream.add_font(pango_font)` on every change of Pango font
+        from weasyprint.text.fonts import get_pango_font_key
+        font, font_size = result
+        recorder.font_events.append(
+            ('add', recorder.handle(self), get_pango_font_key(pango_font)[0], font.hash, bool(font.bitmap), font_size))
+    outer('add_font', add_font)
 
     def set_alpha(self, before, result, alpha, stroke=False, fill=None):
         recorder.on(self, 'alpha', alpha, bool(stroke), None if fill is None else bool(fill))
@@ -145,10 +154,12 @@ def make_logging_class(recorder):
     outer('set_color_rgb', set_color_rgb)
 
     for name, cls in PASS_THROUGH.items():
-        def passthrough(self, before, result, *args, _cls=cls, **kwargs):
+        def passthrough(self, before, result, *args, _cls=cls, _name=name, **kwargs):
             if len(self.stream) != before + 1:
                 raise Unsupported('pass-through method appended other than one item')
             recorder.on(self, 'tok', _cls, token(self.stream[-1]))
+            if _name == 'set_text_matrix':
+                recorder.font_events.append(('line', recorder.handle(self)))
         outer(name, passthrough)
 
     def add_group(self, before, result, *args):
@@ -188,6 +199,7 @@ class Recorder:
         self.real_stream_class = stream_module.Stream
         self.streams, self.log, self.depth = [], [], 0
         self.pending_pages = 0
+        self.font_events = []       # ('line', h) | ('add', h, key, hash, bitmap, size) | ('tf', h, name, size)
         self.tree_events = []       # ('ctx-begin', props) / ('ctx-end',) / ('leaf-begin', name) / ('leaf-end',) / index
         self.cls = make_logging_class(self)
 
@@ -197,6 +209,7 @@ class Recorder:
             # created directly (generate_pdf): a page stream
             self.log.append(('newpage',))
             self.tree_events.append(('call', len(self.log) - 1))
+            self.font_events.append(('page', len(self.streams) - 1))
 
     def handle(self, stream):
         for i, s in enumerate(self.streams):
@@ -246,6 +259,23 @@ class Recorder:
                 self.streams) else 0
             text += f' || U fonts={fonts} streams={added} images={images}'
         return text
+
+
+def text_lines(font_events):
+    """The font events of each drawn line of text: [(runs, tf calls)], runs = the `add_font` calls of the line
+    (key, hash, bitmap, size), tf calls = for each of them the `set_font_size` call that follows on the same stream."""
+    lines, current = [], None
+    for i, event in enumerate(font_events):
+        if event[0] == 'page':
+            current = None        # add_forms registers the fonts of the form fields before the page is painted
+        elif event[0] == 'line':
+            current = ([], [])
+            lines.append(current)
+        elif event[0] == 'add' and current is not None:
+            current[0].append(event[2:])
+            following = next((e for e in font_events[i + 1:] if e[1] == event[1] and e[0] != 'add'), None)
+            current[1].append(following[2:] if following and following[0] == 'tf' else None)
+    return [line for line in lines if line[0]]
 
 
 def wire_call(call):
@@ -331,8 +361,7 @@ def context_props(stacking_context):
         'opacity': box.style['opacity'],
         'transform': transform,
         'values': list(matrix.values) if transform == 'regular' else None,
-        'point2': isinstance(box, (boxes.BlockBox, boxes.MarginBox, boxes.InlineBlockBox, boxes.TableCellBox,
-                                   boxes.FlexContainerBox, boxes.ReplacedBox)),
+        'point2': isinstance(box, tuple(getattr(boxes, name) for name in c16src.point2_classes())),
         'clip': bool(box.style['overflow'] != 'visible' and not isinstance(box, boxes.PageBox)),
         'inline': isinstance(box, boxes.InlineBox),
     }
